@@ -35,7 +35,9 @@ func (osFS) Remove(path string) error {
 	return robustio.RemoveAll(path)
 }
 func (osFS) RemoveDir(path string) error {
-	return robustio.RemoveAll(path)
+	// Only an empty directory may go: a blob can have been received into
+	// it since the caller saw it empty.
+	return os.Remove(path)
 }
 
 func (osFS) Rename(oldname, newname string) error {
